@@ -74,3 +74,44 @@ async fn f_c10_a_unresolvable_name_is_answered() -> anyhow::Result<()> {
     assert!(n == 0 || rep[1] != 0);
     Ok(())
 }
+
+async fn http_stack() -> anyhow::Result<(String, u16)> {
+    let server_port = available_port();
+    let client_port = available_port();
+    let config = TestConfig { server_addr: format!("127.0.0.1:{server_port}"), client_listen: format!("127.0.0.1:{client_port}"), password: "replay_password".to_string() };
+    let server = create_test_server(&config).await?;
+    let server_addr = config.server_addr.clone();
+    tokio::spawn(async move { let _ = server.listen(&server_addr).await; });
+    sleep(Duration::from_millis(300)).await;
+    let client = create_test_client(&config).await?;
+    let http_addr = config.client_listen.clone();
+    let c2 = Arc::clone(&client);
+    let a2 = http_addr.clone();
+    tokio::spawn(async move { let _ = anytls_rs::client::start_http_proxy_server(&a2, c2).await; });
+    sleep(Duration::from_millis(400)).await;
+    // an upstream echo server
+    let up = tokio::net::TcpListener::bind("127.0.0.1:0").await?;
+    let up_port = up.local_addr()?.port();
+    tokio::spawn(async move { loop { if let Ok((mut s, _)) = up.accept().await { tokio::spawn(async move { let mut b = [0u8; 1024]; loop { match s.read(&mut b).await { Ok(0) | Err(_) => break, Ok(n) => { if s.write_all(&b[..n]).await.is_err() { break; } } } } }); } } });
+    Ok((http_addr, up_port))
+}
+
+/// F-C17-a  http.vx_block_http.connect_early_bytes_are_forwarded
+/// bytes that arrive in the same segment as the CONNECT header must reach the target exactly once
+#[tokio::test]
+async fn f_c17_a_connect_early_bytes_reach_the_target() -> anyhow::Result<()> {
+    let (http_addr, up_port) = http_stack().await?;
+    let mut s = timeout(Duration::from_secs(5), TcpStream::connect(&http_addr)).await??;
+    let req = format!("CONNECT 127.0.0.1:{up_port} HTTP/1.1\r\nHost: 127.0.0.1:{up_port}\r\n\r\nearly-bytes");
+    s.write_all(req.as_bytes()).await?;
+    let mut got = Vec::new();
+    let mut buf = [0u8; 1024];
+    let deadline = tokio::time::Instant::now() + Duration::from_secs(5);
+    while tokio::time::Instant::now() < deadline && !String::from_utf8_lossy(&got).contains("early-bytes") {
+        match timeout(Duration::from_millis(500), s.read(&mut buf)).await { Ok(Ok(n)) if n > 0 => got.extend_from_slice(&buf[..n]), Ok(Ok(_)) => break, _ => {} }
+    }
+    let text = String::from_utf8_lossy(&got).to_string();
+    assert!(text.starts_with("HTTP/1.1 200"), "no 200: {:?}", text);
+    assert!(text.contains("early-bytes"), "the bytes sent together with the CONNECT header never reached the target (echo missing): {:?}", text);
+    Ok(())
+}
